@@ -93,8 +93,17 @@ def Body.declared : Body → Int
   | .fixed d => d.length
   | _ => -1
 
+/-- a response whose status code excludes a body (RFC 7230 §3.3.3 rule 1) -/
+def Msg.bodiless (m : Msg) : Bool :=
+  match m.start with
+  | .status _ c _ => bodilessStatus (decimal c)
+  | _ => false
+
+/-- the length reported with the header section: that of a Content-Length body, 0 for a bodiless response, else -1 -/
+def Msg.declared (m : Msg) : Int := if m.bodiless then 0 else m.body.declared
+
 def eventsOf (m : Msg) : List Ev :=
-  m.start.events ++ m.headers.map (fun h => Ev.header h.key h.evValue) ++ [.contentLength m.body.declared] ++ m.body.events
+  m.start.events ++ m.headers.map (fun h => Ev.header h.key h.evValue) ++ [.contentLength m.declared] ++ m.body.events
 
 /-! ### the two RFC 7230 decision tables -/
 
@@ -190,7 +199,7 @@ def respSpec (m : Msg) : Option Resp :=
   | .status proto code reason =>
     some { proto := proto, code := decimal code, status := trimRightSpaces reason,
            header := multimap m.fields,
-           contentLength := m.body.declared,
+           contentLength := m.declared,
            body := m.body.bytes,
            trailer := multimap m.body.trailers }
   | _ => none
@@ -223,9 +232,6 @@ def bodyMatches : Framing → Body → Bool
   | _, _ => false
 
 def http1x (proto : Bytes) : Bool := proto == str "HTTP/1.1" || proto == str "HTTP/1.0"
-
-/-- status codes for which a response never has a body (RFC 7230 §3.3.3 rule 1) -/
-def bodilessStatus (code : Nat) : Bool := code / 100 == 1 || code == 204 || code == 304
 
 def Start.wf : Start → Bool
   | .request m t p =>
